@@ -678,8 +678,19 @@ def m_push(c):
 def m_grow(c):
     t, pl = _len_term(c)
     if t is not None:
+        # appending a container of known length to one whose length is a known constant: the sum is exact
+        exact = None
+        cur = c.st.iv.get(t)
+        if cur is not None and cur[0] is not None and cur[0] == cur[1] and len(c.args) >= 2 \
+                and re.search(r"extend_from_slice$|Extend<(&'a )?T>>::extend$|::append$", c.path):
+            sl = c.len_of(1)
+            if sl[0] == "n" and not (sl[1] is not None and under(term_place(sl[1]), pl)):
+                exact = ("n", sl[1], sl[2] + cur[0])
         c.st.kill(pl, keep_len=True)
-        c.an.grow_unknown(c.st, t)
+        if exact is not None:
+            c.an.set_term(c.st, t, exact)
+        else:
+            c.an.grow_unknown(c.st, t)
     if "append" in c.path:
         t2, pl2 = _len_term(c, 1)
         if t2 is not None:
